@@ -76,3 +76,21 @@ Lemma c_steps_app s a b : c_steps s (a ++ b) = c_steps (c_steps s a) b.
 Proof. unfold c_steps. apply fold_left_app. Qed.
 Lemma lsteps_app xs a b : lsteps xs (a ++ b) = lsteps (lsteps xs a) b.
 Proof. unfold lsteps. apply fold_left_app. Qed.
+
+(* trigger-freeness and the answers of a concatenated history split at the seam, so
+   refines_history can be applied piecewise *)
+Lemma kf_run_app : forall a xs b,
+  kf_run xs (a ++ b) = 0%N <-> kf_run xs a = 0%N /\ kf_run (lsteps xs a) b = 0%N.
+Proof.
+  induction a as [|o a IH]; intros xs b.
+  - cbn [app kf_run lsteps fold_left]. tauto.
+  - cbn [app kf_run]. unfold lsteps. cbn [fold_left].
+    destruct (N.eqb_spec (kf_op xs o) 0) as [E|E].
+    + apply IH.
+    + split; [intros H; congruence|intros [H _]; congruence].
+Qed.
+Lemma c_trace_app : forall a s b, c_trace s (a ++ b) = c_trace s a ++ c_trace (c_steps s a) b.
+Proof.
+  induction a as [|o a IH]; intros s b; [reflexivity|].
+  cbn [app c_trace]. unfold c_steps. cbn [fold_left]. f_equal. apply IH.
+Qed.
